@@ -89,7 +89,7 @@ _CUR = {"o0": 0}
 
 
 def _on_timer(_sig, _frm):
-    if os.fstat(2).st_size - _CUR["o0"] > 48 * 1024:
+    if _CUR.get("armed") and os.fstat(2).st_size - _CUR["o0"] > 48 * 1024:
         raise _Flood()
 
 
@@ -306,12 +306,18 @@ def _child(impls, sfd, kind):
                 _CUR["o0"] = o0
                 signal.setitimer(signal.ITIMER_VIRTUAL, 0.05, 0.05)
                 try:
-                    r = _run_impl(impl, data, mode)
+                    try:
+                        _CUR["armed"] = True
+                        r = _run_impl(impl, data, mode)
+                    finally:
+                        _CUR["armed"] = False
+                        signal.setitimer(signal.ITIMER_VIRTUAL, 0, 0)
                 except _Flood:
+                    # fired outside the drivers' own try blocks (or inside the finally above)
+                    _CUR["armed"] = False
+                    signal.setitimer(signal.ITIMER_VIRTUAL, 0, 0)
                     r = {"a": {"nb": 0, "nrec": 0, "batches": [], "dig": "", "exc": _exc_info(_Flood())},
                          "b": {"nb": 0, "nrec": 0, "batches": [], "dig": ""}}
-                finally:
-                    signal.setitimer(signal.ITIMER_VIRTUAL, 0, 0)
             else:
                 r = _run_impl(impl, data, mode)
             o1 = os.fstat(2).st_size
